@@ -177,6 +177,24 @@ func runC05(r *R) {
 				}
 			}
 		})
+		// `safe` counts only existing replicas on mounts that offer the class
+		allInstrs(fn, func(in ssa.Instruction) {
+			bo, ok := in.(*ssa.BinOp)
+			if !ok || bo.Op.String() != "+" || !isNamedPhi(bo.X, "safe") {
+				return
+			}
+			slot := rootBase(bo.Y)
+			g1, _ := Guard(fn, nil, in, NeqC("slot.repl != nil", fieldOfRoot(kb+".slot", "repl", slot), NilV))
+			g2, _ := Guard(fn, nil, in, TrueC("bal.mountsByClass[class][slot.mnt]", func(v ssa.Value) bool {
+				l, ok := Resolve1(v).(*ssa.Lookup)
+				if !ok {
+					return false
+				}
+				inner, ok := Resolve1(l.X).(*ssa.Lookup)
+				return ok && strings.Contains(Canon(inner.X), "Balancer.mountsByClass") && fieldOfRoot(kb+".slot", "mnt", slot)(l.Index)
+			}))
+			r.Check(g1 && g2, "C05-R3", fn, "safe += slot.mnt.Replication", in.Pos(), "counts existing replicas on mounts of this class only", "the per-class safety count includes replicas that do not satisfy the class (or missing replicas): a block under-replicated for a class can be judged safe and its other replicas trashed (hasReplica="+boolS(g1)+" inClass="+boolS(g2)+")")
+		})
 		r.Check(okUnder && nUnder > 0, "C05-R3", fn, "underreplicated = safe < desired", fn.Pos(), "only ever set from safe < desired, under !underreplicated", "underreplicated can be reset or set from something else")
 		nUnsafe := 0
 		for _, f := range all {
